@@ -75,6 +75,8 @@ def gen_file(rng, tier, i, mode):
         # raw parentheses cannot be written into a bracket file: only the -LRB- style names
         k["words"] = [w for w in k["words"] if w != "paren"] + ["ascii"]
     tb = model.gen_treebank(rng, k)
+    if rng.random() < 0.02 and mode == "clean":
+        tb = []                                   # a treebank file without any sentence
     if rng.random() < 0.04 and mode == "clean":
         # a long file: crosses the 8192 / 16384 character and byte buffer boundaries
         k["n_max"] = max(k["n_max"], 5)
